@@ -10,6 +10,7 @@ import (
 	"sort"
 	"strconv"
 
+	"sheensverif/internal/patch"
 	"sheensverif/internal/prog"
 	"sheensverif/internal/report"
 	"sheensverif/rules"
@@ -68,7 +69,7 @@ func check(id, tier, repo, verif string, seed int) (exit int) {
 	if err != nil {
 		res.Break("known_findings.json unreadable: %v", err)
 	}
-	p, err := prog.Load(repo, tier == "thorough", nil)
+	p, err := prog.Load(repo, false, nil)
 	if err != nil {
 		res.Break("cannot load %s: %v", repo, err)
 		return res.Finish(verif, findings)
@@ -83,5 +84,86 @@ func check(id, tier, repo, verif string, seed int) (exit int) {
 		}()
 		rf(&rules.Ctx{P: p, R: res, Tier: tier})
 	}()
+	if tier == "thorough" {
+		selfTest(id, repo, verif, res, findings, rf)
+	}
 	return res.Finish(verif, findings)
+}
+
+// selfTest (thorough tier): every seeded breaking change kept under
+// <verif>/seeded is applied in memory (go/packages overlay — /repo is not
+// touched) and the property's rules are run on the result.  A change that
+// targets this property and is not reported is a weakness of the checker; it is
+// recorded in the evidence and never turns into a verdict about /repo.
+func selfTest(id, repo, verif string, res *report.Result, findings []report.Finding, rf rules.RuleFunc) {
+	dirs, _ := filepath.Glob(filepath.Join(verif, "seeded", "C*-*"))
+	sort.Strings(dirs)
+	known := map[string]bool{}
+	for _, f := range findings {
+		if f.Property == id && f.Status == "known" {
+			known[f.Key] = true
+		}
+	}
+	type outcome struct {
+		Seed    string   `json:"seed"`
+		Targets string   `json:"targets"`
+		Status  string   `json:"status"` // killed | alive | stale
+		Reports []string `json:"reports,omitempty"`
+	}
+	var outs []outcome
+	killedT, totalT, stale := 0, 0, 0
+	for _, d := range dirs {
+		name := filepath.Base(d)
+		target := name[:3]
+		if target != id {
+			continue
+		}
+		ov, err := patch.Apply(repo, filepath.Join(d, "patch.diff"))
+		if err != nil {
+			outs = append(outs, outcome{name, target, "stale", []string{err.Error()}})
+			stale++
+			continue
+		}
+		p, err := prog.Load(repo, false, ov)
+		if err != nil {
+			outs = append(outs, outcome{name, target, "stale", []string{err.Error()}})
+			stale++
+			continue
+		}
+		r2 := report.New(id, "thorough", 0)
+		func() {
+			defer func() {
+				if r := recover(); r != nil {
+					r2.Break("analysis panic: %v", r)
+				}
+			}()
+			rf(&rules.Ctx{P: p, R: r2, Tier: "quick"})
+		}()
+		var reps []string
+		for _, o := range r2.Obls {
+			if o.Status != report.OK && !known[o.Key] {
+				reps = append(reps, o.Key)
+			}
+		}
+		reps = append(reps, r2.Broken...)
+		totalT++
+		st := "alive"
+		if len(reps) > 0 {
+			st = "killed"
+			killedT++
+		}
+		if len(reps) > 4 {
+			reps = reps[:4]
+		}
+		outs = append(outs, outcome{name, target, st, reps})
+	}
+	res.Extra["selftest"] = map[string]interface{}{
+		"what":             "seeded breaking changes for this property (confirmed: compile, pass the suite, demonstration fails) analysed through an in-memory overlay",
+		"mutants_total":    totalT,
+		"mutants_killed":   killedT,
+		"mutants_stale":    stale,
+		"outcomes":         outs,
+		"checker_weakness": totalT - killedT,
+	}
+	fmt.Printf("%s selftest: %d/%d seeded changes for this property reported, %d stale\n", id, killedT, totalT, stale)
 }
